@@ -5,7 +5,7 @@ from .. import env, coq, runner, gates, tables
 
 LEVEL = 'proof'
 META = dict(
-    text='Coq theorems over a generic commutative ring with unit parameters, hence for every exponent at once: for each of the 18 dispatch branches of the IonQ serializer (x v vi rx y ry z s si t ti rz xx yy zz cnot swap h) the vendor meaning of the emitted gate equals the Cirq gate matrix (regenerated eigen tables) up to an explicit unit factor, for every exponent of the branch class and for all exponents in the rotation branches; the dispatch table regenerated from the working tree (945 rows: special exponents, just inside/outside the 1e-8 window, generic) equals the model decision function; native gpi/gpi2/ms/zz pass their parameters through; pauliexp term strings are little-endian for strings of any length; the measurement-metadata codec round-trips for every key/target list without separators and every chunk size; bit reversal is an involution and both result paths give qubit targets[i] bit targets[i] of the little-endian outcome; the AQT operation list is translated operation by operation into the v1 payload with matrices equal to the Cirq gates up to phase. On every run the REAL payloads of cirq_ionq.Serializer (single, batch, QIS, native) and AQTSampler (_generate_json, v1) for generated circuits are interpreted by the vendor semantics inside Coq and compared up to global phase with the reference unitary; metadata and result conversion are compared exactly with the codec model; unsupported content must raise; Service / Sampler / AQT samplers are run end to end against a stand-in vendor; the Pasqal request body must read back as the resolved circuit.',
+    text='Coq theorems over a generic commutative ring with unit parameters, hence for every exponent at once: for each of the 18 dispatch branches of the IonQ serializer (x v vi rx y ry z s si t ti rz xx yy zz cnot swap h) the vendor meaning of the emitted gate equals the Cirq gate matrix (regenerated eigen tables) up to an explicit unit factor, for every exponent of the branch class and for all exponents in the rotation branches; the dispatch table regenerated from the working tree (945 rows: special exponents, just inside/outside the 1e-8 window, generic) equals the model decision function; native gpi/gpi2/ms/zz pass their parameters through; pauliexp term strings are little-endian for strings of any length; the measurement-metadata codec round-trips for every key/target list without separators and every chunk size; bit reversal is an involution and both result paths give qubit targets[i] bit targets[i] of the little-endian outcome; the AQT operation list is translated operation by operation into the v1 payload with matrices equal to the Cirq gates up to phase. On every run the REAL payloads of cirq_ionq.Serializer (single, batch, QIS, native) and AQTSampler (_generate_json, v1) for generated circuits are interpreted by the vendor semantics inside Coq and compared up to global phase with the reference unitary; metadata and result conversion are compared exactly with the codec model; unsupported content must raise; Service / Sampler / AQT samplers are run end to end against a stand-in vendor; the Pasqal request body must read back as the resolved circuit. HISTORIES of calls on one sampler / service object (Vendor/History.v: a sampler that keeps nothing, or keeps VALUES, posts at every call the circuit as it is then; one that keeps the caller\'s mutable object does not — refuted with the witness submit / insert in place / submit again — and only in-place mutation can expose it): on every run PasqalSampler, AQTSampler, AQTSamplerLocalSimulator and cirq_ionq.Service / its Sampler (QIS and native) are driven through histories in which the same mutable cirq.Circuit is submitted, edited in place (insert / append / del / setitem / slice assignment / batch_insert / batch_insert_into / batch_replace / batch_remove / clear_operations_touching), submitted again with an equal or another resolver, as a sweep, in a batch, as an equal copy or frozen; every recorded request body is decoded by the vendor gate definitions and must mean the circuit at the time of its call (unitary up to phase, measurement layout, register), and the decoded bodies must equal the history model evaluated in Coq.',
     note='Trusted: Coq kernel; the transcription of the IonQ / AQT gate definitions and of the little-endian conventions (headers of coq/Vendor/IonQ.v, AQT.v); the Python adapters that copy JSON fields and turn angles into unit complex numbers; the float instance (PrimFloat, tolerance 1e-9, 5e-7 when an exponent lies inside the serializer window); the stand-in vendors used for the end-to-end streams follow the same trusted text. Vendor services are not contacted. Field NAMES of the vendor JSON (e.g. `phase` vs `angle` for native zz) are taken as the serializer writes them; only their meaning is checked. Known findings: invert_mask / confusion_map / repeated measurement keys are accepted and altered by the IonQ serializer; AQTSampler does not validate qubit type / index.',
     technique='Rocq/Coq proof over generic-ring gate semantics and list codecs + vm_compute interpretation of real vendor payloads against the reference unitary',
 )
@@ -777,6 +777,8 @@ def replay_discrete(cirq, mods, rep):
         return aqt_reject_oracle(cirq, mods, rep)
     if kind == 'pasqal':
         return pasqal_oracle(cirq, mods, rep)
+    if kind == 'history':
+        return history_oracle(cirq, mods, rep)
     raise KeyError(kind)
 
 
@@ -1601,13 +1603,759 @@ def pasqal_stream(ctx, cirq, mods, n):
                          f'the Pasqal request body does not read back as the resolved circuit / the result is not decoded as sent: {json.dumps(rep)[:300]}', rep)
 
 
+# ---------------------------------------------------------------------------------------------------
+# HISTORIES of calls on ONE sampler / service object (model: coq/Vendor/History.v).  The caller keeps a mutable
+# cirq.Circuit, submits it, edits it IN PLACE (insert / append / delete / setitem / batch operations), submits it again
+# (same or another resolver, sweeps, batches), submits equal-but-distinct copies and frozen snapshots.  Every request
+# body that reaches the (stand-in) HTTP layer must describe the circuit as it is at the time of that call.
+# ---------------------------------------------------------------------------------------------------
+HVALS = [0.5, 0.25, -0.5, 1.0, 0.75]          # resolver j (1-based) binds the symbol a to HVALS[j - 1]
+H_FIXED_E = [1.0, 0.5, -0.5, 0.25, 1.5, 0.3217, -0.75, -1.25]
+H_FAMS = {
+    'pasqal': dict(one=['X', 'Y', 'Z', 'PhX', 'H1'], two=['CZ1'], param=['X', 'Y', 'Z', 'PhX']),
+    'aqt': dict(one=['Z', 'PhX'], two=['XX', 'ms'], param=['Z', 'PhX', 'XX']),
+    'aqt_local': dict(one=['Z', 'PhX'], two=['XX', 'ms'], param=['Z', 'PhX', 'XX']),
+    'ionq': dict(one=['X', 'Y', 'Z', 'rx', 'ry', 'rz', 'H1'], two=['XX', 'YY', 'ZZ', 'CX1', 'SWAP1', 'ms'],
+                 param=['X', 'Y', 'Z', 'rx', 'ry', 'rz', 'XX', 'YY', 'ZZ']),
+    'ionq_native': dict(one=['GPI', 'GPI2'], two=['IMS', 'IZZ'], param=[]),
+}
+H_ENTRIES = {
+    'pasqal': ['run_sweep', 'run', 'run_batch'],
+    'aqt': ['run_sweep', 'run', 'run_batch'],
+    'aqt_local': ['run_sweep', 'run'],
+    'ionq': ['svc_run', 'sampler', 'svc_create_job', 'svc_run_batch'],
+    'ionq_native': ['svc_run', 'sampler', 'svc_run_batch'],
+}
+H_FLAT_EDITS = ['ins', 'app', 'del', 'set', 'brep', 'slice_ins', 'mset']
+H_FREE_EDITS = ['ins_e', 'ins_i', 'ins_n', 'app_e', 'binsert', 'binto', 'bremove', 'clear', 'brep', 'del', 'mset']
+MEAS0, UNKNOWN = 1000, 9999
+PRE_H = ('From Coq Require Import List Arith Bool.\nFrom VF Require Import Base.Harness Vendor.History.\nImport ListNotations.\n')
+
+
+def hist_gate(cirq, mods, o, sym):
+    e = sym if o['e'] == 'a' else o['e']
+    g = o['g']
+    if g in ('X', 'Y', 'Z', 'XX', 'YY', 'ZZ'):
+        return getattr(cirq, g + 'PowGate')(exponent=e)
+    if g == 'PhX':
+        return cirq.PhasedXPowGate(phase_exponent=o['p'], exponent=e)
+    if g in ('rx', 'ry', 'rz'):
+        return getattr(cirq, g)(e * math.pi)
+    if g == 'ms':
+        return cirq.ms(e * math.pi / 2)
+    if g in ('H1', 'CZ1', 'CX1', 'SWAP1'):
+        return {'H1': cirq.HPowGate, 'CZ1': cirq.CZPowGate, 'CX1': cirq.CXPowGate, 'SWAP1': cirq.SwapPowGate}[g](exponent=e)
+    ci = mods['cirq_ionq']
+    if g == 'GPI':
+        return ci.GPIGate(phi=e)
+    if g == 'GPI2':
+        return ci.GPI2Gate(phi=e)
+    if g == 'IMS':
+        return ci.MSGate(phi0=e, phi1=o['p'], theta=o['t'])
+    if g == 'IZZ':
+        return ci.ZZGate(theta=e)
+    raise KeyError(g)
+
+
+def hist_qubits(cirq, mods, case):
+    cp = mods['cirq_pasqal']
+    k = case['k']
+    if case['vendor'] == 'pasqal':
+        return [cp.TwoDQubit(i, 0) for i in range(k)] if case['dev'] == 'virtual' else [cirq.NamedQubit(f'q{i}') for i in range(k)]
+    return cirq.LineQubit.range(k)
+
+
+def gen_hist_vocab(rng, cirq, mods, vendor, k, n_ops):
+    """Operation vocabulary of one history: pairwise distinguishable by meaning (matrix on the k-wire register up to phase), at every
+    resolver value, so that a posted operation names exactly one (operation, resolver) pair."""
+    fam = H_FAMS[vendor]
+    vocab, embs = [], []
+    tries = 0
+    while len(vocab) < n_ops and tries < 60:
+        tries += 1
+        cover = vendor.startswith('aqt') and len(vocab) < k          # AQT circuits use qubits 0..n-1: one single-qubit operation per wire first
+        two = k >= 2 and rng.random() < 0.35 and not cover
+        g = rng.choice(fam['two'] if two else fam['one'])
+        if cover:
+            w = [len(vocab)]
+        elif two:
+            a = rng.randrange(k - 1)
+            w = [a, a + 1] if rng.random() < 0.5 else [a + 1, a]          # neighbours (the Pasqal device has a control radius)
+        else:
+            w = [rng.randrange(k)]
+        n_par = sum(1 for o in vocab if o['e'] == 'a')
+        par = g in fam['param'] and (n_par == 0 or rng.random() < 0.35)
+        o = dict(g=g, e='a' if par else (1.0 if g.endswith('1') else rng.choice(H_FIXED_E)), w=w)
+        if g == 'PhX':
+            o['p'] = rng.choice([0.0, 0.25, 0.5, -0.3, 0.8])
+        if g == 'IMS':
+            o['p'], o['t'] = rng.choice([0.0, 0.1, 0.35]), rng.choice([0.25, 0.1, 0.2])
+        if vendor.startswith('ionq_native'):
+            o['e'] = rng.choice([0.1, 0.2, 0.35, 0.45, 0.05])
+        mats = []
+        for val in (HVALS if par else [None]):
+            gate = hist_gate(cirq, mods, o, val if par else None)
+            mats.append(np_embed(cirq.unitary(gate), w, k))
+        ident = np.eye(2 ** k)
+        if any(np_phase_dist(m, ident) < 1e-3 for m in mats):
+            continue
+        if any(np_phase_dist(m, m2) < 1e-3 for m in mats for m2 in embs) or any(np_phase_dist(mats[i], mats[j]) < 1e-3 for i in range(len(mats)) for j in range(i)):
+            continue
+        vocab.append(o)
+        embs += mats
+    return vocab
+
+
+def gen_hist_meas(rng, vendor, k):
+    if vendor.startswith('aqt'):
+        return []
+    out = [dict(key='m', w=list(range(k)))]
+    w = list(range(k))
+    rng.shuffle(w)
+    out.append(dict(key=rng.choice(['out', 'k y', 'z']), w=w[:rng.randint(1, k)] if k > 1 else w))
+    if k >= 2:
+        out.append(dict(key='r', w=list(reversed(range(k)))))
+    return out
+
+
+def gen_hist_submit(rng, vendor, entry=None, prev=None, same_res=False):
+    entry = entry or rng.choice(H_ENTRIES[vendor])
+    nres = len(HVALS)
+    if same_res and prev is not None:
+        res = [prev]
+    else:
+        res = [rng.randint(1, nres)]
+    if entry in ('run_sweep', 'sampler') and rng.random() < 0.3 and not same_res:
+        res = [rng.randint(1, nres) for _ in range(rng.randint(2, 3))]
+    objs = [rng.choice(['same', 'same', 'same', 'copy', 'frozen'])]
+    if entry in ('run_batch', 'svc_run_batch'):
+        n = rng.randint(1, 3)
+        objs = [rng.choice(['same', 'same', 'copy', 'frozen']) for _ in range(n)]
+        res = [res[0]] + [rng.randint(1, nres) for _ in range(n - 1)]
+    return dict(t='submit', entry=entry, objs=objs, res=res, form=rng.choice(['dict', 'resolver', 'points']))
+
+
+def gen_hist_edit(rng, nv, nm, how):
+    return dict(t='edit', how=how, x=rng.randrange(nv), y=rng.randrange(nv), i=rng.randrange(64), j=rng.randrange(64), m=rng.randrange(max(nm, 1)))
+
+
+def gen_history(rng, cirq, mods, vendor, fixed=None):
+    """fixed = (entry, edit kind): the witness history of C17_history_alias_cache_refuted (submit, edit in place, submit again with an equal
+    resolver, on one sampler) for that entry point and kind of edit; otherwise a random history."""
+    k = rng.randint(2, 4) if vendor != 'ionq_native' else rng.randint(2, 3)
+    dev = rng.choice(['virtual', 'generic']) if vendor == 'pasqal' else None
+    mode = 'flat' if dev == 'virtual' else rng.choice(['flat', 'free'])
+    if fixed is not None and fixed[1] in H_FLAT_EDITS and fixed[1] not in H_FREE_EDITS:
+        mode = 'flat'
+    if fixed is not None and fixed[1] in H_FREE_EDITS and fixed[1] not in H_FLAT_EDITS:
+        mode, dev = 'free', ('generic' if vendor == 'pasqal' else None)
+    vocab = gen_hist_vocab(rng, cirq, mods, vendor, k, rng.randint(5, 8))
+    meas = gen_hist_meas(rng, vendor, k)
+    nv, nm = len(vocab), len(meas)
+    def fresh_ids(lo, hi):
+        ids = [rng.randrange(nv) for _ in range(rng.randint(lo, hi))]
+        if vendor.startswith('aqt'):
+            for w in range(k):                      # qubits 0..k-1 all occur (the AQT register is sized by the number of qubits)
+                if not any(w in vocab[i]['w'] for i in ids):
+                    ids += [i for i, o in enumerate(vocab) if w in o['w']][:1]
+            rng.shuffle(ids)
+        return ids
+
+    first = dict(t='new', ids=fresh_ids(2, 4), m=rng.randrange(nm) if nm else None)
+    steps = [first]
+    if fixed is not None:
+        entry, how = fixed
+        r = rng.randint(1, len(HVALS))
+        sub = dict(t='submit', entry=entry, objs=['same'], res=[r], form=rng.choice(['dict', 'resolver', 'points']))
+        par = [i for i, o in enumerate(vocab) if o['e'] == 'a']
+        ed = gen_hist_edit(rng, nv, nm, how)
+        if par and rng.random() < 0.5:
+            ed['x'] = rng.choice(par)
+        steps += [sub, ed, dict(sub, form=rng.choice(['dict', 'resolver', 'points']))]
+        # and once more with another kind of object / resolver, so that the fixed histories also hold the negative controls
+        steps += [gen_hist_edit(rng, nv, nm, rng.choice(H_FLAT_EDITS if mode == 'flat' else H_FREE_EDITS)), gen_hist_submit(rng, vendor, entry=entry, prev=r, same_res=rng.random() < 0.5)]
+    else:
+        prev = None
+        edits = H_FLAT_EDITS if mode == 'flat' else H_FREE_EDITS
+        for _ in range(rng.randint(3, 7)):
+            r = rng.random()
+            if r < 0.45 or prev is None:
+                s = gen_hist_submit(rng, vendor, prev=prev, same_res=prev is not None and rng.random() < 0.6)
+                prev = s['res'][-1]
+                steps.append(s)
+            elif r < 0.85:
+                for _ in range(rng.choice([1, 1, 2])):
+                    steps.append(gen_hist_edit(rng, nv, nm, rng.choice(edits)))
+                s = gen_hist_submit(rng, vendor, prev=prev, same_res=rng.random() < 0.7)
+                prev = s['res'][-1]
+                steps.append(s)
+            elif r < 0.93:
+                steps.append(dict(t='rebind', how=rng.choice(['copy', 'unfreeze'])))
+            else:
+                steps.append(dict(t='new', ids=fresh_ids(1, 4), m=rng.randrange(nm) if nm else None))
+    return dict(kind='history', vendor=vendor, dev=dev, mode=mode, k=k, vocab=vocab, meas=meas, steps=steps,
+                target=rng.choice(['simulator', 'qpu']), reps=rng.randint(1, 3))
+
+
+class _TextResp:
+    def __init__(self, text):
+        self.text = text
+
+    def raise_for_status(self):
+        pass
+
+
+class _RecVendor(FakeVendor):
+    """FakeVendor that keeps every posted job body."""
+
+    def __init__(self):
+        super().__init__()
+        self.bodies = []
+
+    def post(self, url, json=None, headers=None, **kw):
+        r = super().post(url, json=json, headers=headers, **kw)
+        self.bodies.append(self.body)
+        return r
+
+
+class Hist:
+    """One history on the real code: the caller's objects, ONE sampler / service, the stand-in HTTP layer that records every body."""
+
+    def __init__(self, cirq, mods, case):
+        import sympy
+        self.cirq, self.mods, self.case = cirq, mods, case
+        self.vendor, self.k = case['vendor'], case['k']
+        self.sym = sympy.Symbol('a')
+        self.qubits = hist_qubits(cirq, mods, case)
+        q = self.qubits
+        self.vops = [hist_gate(cirq, mods, o, self.sym).on(*[q[w] for w in o['w']]) for o in case['vocab']]
+        self.params = [i for i, o in enumerate(case['vocab']) if o['e'] == 'a']
+        self.mops = [cirq.measure(*[q[w] for w in m['w']], key=m['key']) for m in case['meas']]
+        self.table = []
+        for i, o in enumerate(case['vocab']):
+            for j, val in (list(enumerate(HVALS, start=1)) if o['e'] == 'a' else [(0, None)]):
+                self.table.append((i, j, frozenset(o['w']), np_embed(cirq.unitary(hist_gate(cirq, mods, o, val)), o['w'], self.k)))
+        self.keep = []                                   # every object stays alive: no identity is ever reused
+        v = self.vendor
+        if v == 'pasqal':
+            cp = mods['cirq_pasqal']
+            dev = cp.PasqalVirtualDevice(control_radius=1.5, qubits=q) if case['dev'] == 'virtual' else cp.PasqalDevice(qubits=q)
+            self.sampler = cp.PasqalSampler(remote_host='http://example.invalid', access_token='t', device=dev)
+            self.dummy = cirq.to_json(cirq.ResultDict(params=cirq.ParamResolver({}), measurements={'z': np.zeros((1, self.k), dtype=np.uint8)}))
+        elif v == 'aqt':
+            self.sampler = mods['cirq_aqt'].AQTSampler('workspace', 'resource', 'token')
+        elif v == 'aqt_local':
+            rec = self.local_posts = []
+
+            class Local(mods['cirq_aqt'].AQTSamplerLocalSimulator):
+                def _send_json(self, *, json_str, id_str, repetitions=1, num_qubits=1):
+                    rec.append(dict(json_str=json_str, num_qubits=num_qubits, repetitions=repetitions))
+                    return super()._send_json(json_str=json_str, id_str=id_str, repetitions=repetitions, num_qubits=num_qubits)
+            self.sampler = Local(simulate_ideal=True)
+        else:
+            self.service = mods['cirq_ionq'].Service(remote_host='http://example.invalid', api_key='k', default_target=case['target'])
+            self.sampler = self.service.sampler(target=case['target'], seed=Picks([0]))
+
+    # ---- the caller's side -------------------------------------------------------------------------------------
+    def content(self, circuit):
+        """Operation identifiers of a live circuit: gates in program order, then measurements."""
+        cirq = self.cirq
+        gs, ms = [], []
+        for op in circuit.all_operations():
+            if cirq.is_measurement(op):
+                ms.append(next((MEAS0 + i for i, m in enumerate(self.mops) if m == op), UNKNOWN))
+            else:
+                # the caller's circuits hold the vocabulary's own operation objects (identity first: cirq_ionq.MSGate's == ignores theta)
+                gs.append(next((i for i, v in enumerate(self.vops) if v is op), next((i for i, v in enumerate(self.vops) if v == op), UNKNOWN)))
+        return gs + ms
+
+    def new_circuit(self, ids, m):
+        cirq = self.cirq
+        strat = cirq.InsertStrategy.NEW if self.case['mode'] == 'flat' else cirq.InsertStrategy.EARLIEST
+        c = cirq.Circuit()
+        for i in ids:
+            c.append(self.vops[i], strategy=strat)
+        if m is not None:
+            c.append(self.mops[m], strategy=cirq.InsertStrategy.NEW)
+        return c
+
+    def edit(self, c, st):
+        """In-place edit of the caller's circuit.  Returns (Gallina edit term or None for an opaque edit / nothing done, description)."""
+        cirq = self.cirq
+        how, nv = st['how'], len(self.vops)
+        has_m = bool(self.mops) and len(c) > 0 and any(cirq.is_measurement(op) for op in c[-1])
+        L = len(c) - (1 if has_m else 0)                 # gate moments are c[0:L]
+        x, y = st['x'] % nv, st['y'] % nv
+        op, op2 = self.vops[x], self.vops[y]
+        nx, ny = self.nm(x), self.nm(y)
+        NEW, EARLIEST, INLINE = cirq.InsertStrategy.NEW, cirq.InsertStrategy.EARLIEST, cirq.InsertStrategy.INLINE
+        flat = self.case['mode'] == 'flat'
+        i = st['i'] % (L + 1)
+        if how in ('ins', 'ins_n'):
+            c.insert(i, op, strategy=NEW)
+            return [f'EdInsert {i} {x}'], f'insert({i}, {nx}, NEW)'
+        if how == 'app':
+            if has_m:
+                c.insert(L, op, strategy=NEW)
+            else:
+                c.append(op, strategy=NEW)
+            return [f'EdInsert {L} {x}'], f'append({nx}, NEW)'
+        if how == 'slice_ins':
+            c[i:i] = [cirq.Moment(op), cirq.Moment(op2)]
+            return [f'EdInsert {i} {x}', f'EdInsert {i + 1} {y}'], f'c[{i}:{i}] = [Moment({nx}), Moment({ny})]'
+        if how == 'mset':
+            if not has_m:
+                return None, 'nothing'
+            mid = st['m'] % len(self.mops)
+            old = [o for o in c[-1] if cirq.is_measurement(o)][0]
+            if st['j'] % 2:
+                c[len(c) - 1] = cirq.Moment(self.mops[mid])
+            else:
+                c.batch_replace([(len(c) - 1, old, self.mops[mid])])
+            return [f'EdSet {L} {MEAS0 + mid}'], f'{"c[-1] = Moment" if st["j"] % 2 else "batch_replace measurement by "}({self.nm(MEAS0 + mid)})'
+        if how in ('ins_e', 'ins_i', 'app_e'):
+            if how == 'app_e' and not has_m:
+                c.append(op, strategy=EARLIEST)
+            else:
+                c.insert(L if how == 'app_e' else i, op, strategy=EARLIEST if how != 'ins_i' else INLINE)
+            return None, f'insert({L if how == "app_e" else i}, {nx}, {"INLINE" if how == "ins_i" else "EARLIEST"})'
+        if how == 'binsert':
+            c.batch_insert([(i, op), (st['j'] % (L + 1), op2)])
+            return None, f'batch_insert([({i}, {nx}), ({st["j"] % (L + 1)}, {ny})])'
+        if L == 0:
+            return None, 'nothing'
+        i = st['i'] % L
+        if how == 'binto':
+            try:
+                c.batch_insert_into([(i, op)])
+            except ValueError:
+                return None, 'nothing'
+            return None, f'batch_insert_into([({i}, {nx})])'
+        gates_left = sum(1 for o in c.all_operations() if not cirq.is_measurement(o))
+        if how in ('set', 'brep'):
+            if flat:
+                if how == 'set':
+                    c[i] = cirq.Moment(op)
+                else:
+                    c.batch_replace([(i, c[i].operations[0], op)])
+                return [f'EdSet {i} {x}'], f'{"c[" + str(i) + "] = Moment" if how == "set" else "batch_replace moment " + str(i) + " by "}({nx})'
+            cand = [(mi, o) for mi in range(L) for o in c[mi] if set(o.qubits) == set(op.qubits)]
+            if not cand:
+                return None, 'nothing'
+            mi, old = cand[st['j'] % len(cand)]
+            c.batch_replace([(mi, old, op)])
+            return None, f'batch_replace([({mi}, {old}, {nx})])'
+        if how == 'del':
+            if flat:
+                if L < 2:
+                    return None, 'nothing'
+                del c[i]
+                return [f'EdDelete {i}'], f'del c[{i}]'
+            if gates_left - len(c[i]) < 1:
+                return None, 'nothing'
+            del c[i]
+            return None, f'del c[{i}]'
+        if how == 'bremove':
+            ops = [(mi, o) for mi in range(L) for o in c[mi]]
+            if len(ops) < 2:
+                return None, 'nothing'
+            mi, old = ops[st['j'] % len(ops)]
+            c.batch_remove([(mi, old)])
+            return None, f'batch_remove([({mi}, {old})])'
+        if how == 'clear':
+            qs = [self.qubits[st['j'] % self.k]]
+            hit = sum(1 for mi in range(L) for o in c[mi] if set(o.qubits) & set(qs) and mi in (i, (i + 1) % L))
+            if gates_left - hit < 1 or hit == 0:
+                return None, 'nothing'
+            c.clear_operations_touching(qs, [i, (i + 1) % L])
+            return None, f'clear_operations_touching({qs}, [{i}, {(i + 1) % L}])'
+        raise KeyError(how)
+
+    def nm(self, x):
+        return describe_ids(self.case, [(x, 0)])[1:-1]
+
+    def resolver(self, j, form):
+        cirq = self.cirq
+        d = {'a': HVALS[j - 1]}
+        return d if form == 'dict' else cirq.ParamResolver({self.sym: HVALS[j - 1]}) if form == 'resolver' else cirq.ParamResolver(d)
+
+    # ---- the property's reading of one submission ---------------------------------------------------------------
+    def meaning(self, circuit, j):
+        """(unitary on the k-wire register, [(key, wires)]) of the caller's circuit as it is now, resolved at resolver j."""
+        cirq = self.cirq
+        c = cirq.resolve_parameters(circuit, {'a': HVALS[j - 1]})
+        gs = cirq.Circuit(op for op in c.all_operations() if not cirq.is_measurement(op))
+        u = gs.unitary(qubit_order=self.qubits, qubits_that_should_be_present=self.qubits)
+        ms = sorted((cirq.measurement_key_name(op), [self.qubits.index(x) for x in op.qubits]) for op in c.all_operations() if cirq.is_measurement(op))
+        used = sorted(self.qubits.index(x) for x in c.all_qubits())
+        # AQT sizes the register by the NUMBER of qubits in the circuit (qubits are meant to be 0..n-1): no demand on a circuit with gaps
+        return u, ms, (1 + used[-1] if used == list(range(len(used))) or not self.vendor.startswith('aqt') else 0)
+
+    def match(self, m, wires):
+        try:
+            e = np_embed(m, list(wires), self.k)
+        except Exception:
+            return (UNKNOWN, 0)
+        ws = frozenset(wires)
+        for i, j, w, t in self.table:
+            if w == ws and np_phase_dist(e, t) < 1e-6:
+                return (i, j)
+        return (UNKNOWN, 0)
+
+    def match_meas(self, key, wires):
+        return next(((MEAS0 + i, 0) for i, m in enumerate(self.case['meas']) if m['key'] == key and list(m['w']) == list(wires)), (UNKNOWN, 0))
+
+    # ---- the sampler's side: real call, stand-in HTTP layer ------------------------------------------------------
+    def call(self, entry, circuits, js, form):
+        """Runs the real entry point; returns the raw request bodies it produced, one per (circuit, resolver) submission."""
+        from unittest import mock
+        cirq, v, reps = self.cirq, self.vendor, self.case['reps']
+        rs = [self.resolver(j, form) for j in js]
+        sweep = cirq.Points('a', [HVALS[j - 1] for j in js]) if form == 'points' else rs
+        if v == 'pasqal':
+            import cirq_pasqal.pasqal_sampler as pm
+            seen = []
+
+            def post(url, headers=None, data=None, **kw):
+                seen.append(dict(data=data, reps=(headers or {}).get('Repetitions')))
+                return _TextResp('task-1')
+
+            with mock.patch.object(pm.requests, 'post', post), mock.patch.object(pm.requests, 'get', lambda url, headers=None, **kw: _TextResp(self.dummy)):
+                self.sampler_call(entry, circuits, rs, sweep, reps)
+            return seen
+        if v == 'aqt':
+            import cirq_aqt.aqt_sampler as am
+            seen = []
+
+            def post(url, json=None, headers=None, **kw):
+                import json as J
+                seen.append(J.loads(J.dumps(json)))
+                return _Resp({'job': {'job_id': 'job-7'}, 'response': {'status': 'queued'}})
+
+            def get(url, headers=None, **kw):
+                n = seen[-1]['payload']['circuits'][0]['repetitions']
+                return _Resp({'job': {'job_id': 'job-7'}, 'response': {'status': 'finished', 'result': {'0': [[0] * 16] * n}}})
+
+            with mock.patch.object(am, 'post', post), mock.patch.object(am, 'get', get), mock.patch.object(am.time, 'sleep', lambda s: None):
+                out = self.sampler_call(entry, circuits, rs, sweep, reps)
+            return seen
+        if v == 'aqt_local':
+            del self.local_posts[:]
+            self.sampler_call(entry, circuits, rs, sweep, reps)
+            return list(self.local_posts)
+        import cirq_ionq.ionq_client as ic
+        srv = _RecVendor()
+        target = self.case['target']
+        shots = reps if target == 'simulator' else 100
+        with mock.patch.object(ic.requests, 'post', srv.post), mock.patch.object(ic.requests, 'get', srv.get):
+            if entry == 'svc_run':
+                self.service.run(circuits[0], repetitions=shots, target=target, param_resolver=rs[0], seed=Picks([0]))
+            elif entry == 'sampler':
+                self.sampler.run_sweep(circuits[0], params=sweep, repetitions=shots)
+            else:
+                # create_job / run_batch take circuits without symbols: the caller resolves (an unparametrised circuit is handed over as it is)
+                rc = [c if not cirq.is_parameterized(c) else cirq.resolve_parameters(c, r) for c, r in zip(circuits, rs)]
+                if entry == 'svc_create_job':
+                    self.service.create_job(circuit=rc[0], repetitions=shots, target=target)
+                else:
+                    self.service.run_batch(rc, repetitions=shots, target=target, seed=Picks([0]))
+        out = []
+        for b in srv.bodies:
+            inp, md = b.get('input', {}), b.get('metadata', {})
+            if 'circuits' in inp:
+                try:
+                    mds = json.loads(md.get('measurements', '[]'))
+                except Exception:
+                    mds = []
+                for i, c in enumerate(inp['circuits']):
+                    out.append(dict(gateset=inp.get('gateset'), qubits=inp.get('qubits'), circuit=c.get('circuit'), metadata=mds[i] if i < len(mds) else {}))
+            else:
+                out.append(dict(gateset=inp.get('gateset'), qubits=inp.get('qubits'), circuit=inp.get('circuit'), metadata=md))
+        return out
+
+    def sampler_call(self, entry, circuits, rs, sweep, reps):
+        if entry == 'run_sweep':
+            return self.sampler.run_sweep(circuits[0], params=sweep, repetitions=reps)
+        if entry == 'run':
+            return [self.sampler.run(circuits[0], param_resolver=rs[0], repetitions=reps)]
+        if entry == 'run_batch':
+            return self.sampler.run_batch(circuits, params_list=rs, repetitions=reps)
+        raise KeyError(entry)
+
+    def decode(self, raw):
+        """A raw request body -> ([(matrix, wires)] of its gates in order, [(key, wires)] measured, register size or None, well-formed?)."""
+        cirq, v = self.cirq, self.vendor
+        if v == 'pasqal':
+            sent = cirq.read_json(json_text=raw['data'])
+            gs, ms = [], []
+            for op in sent.all_operations():
+                ws = [self.qubits.index(x) if x in self.qubits else 99 for x in op.qubits]
+                if cirq.is_measurement(op):
+                    ms.append((cirq.measurement_key_name(op), ws))
+                else:
+                    gs.append((cirq.unitary(op, None), ws))
+            return gs, ms, None, raw['reps'] == str(self.case['reps']) and not cirq.is_parameterized(sent)
+        if v == 'aqt':
+            c = raw['payload']['circuits'][0]
+            qc = c['quantum_circuit']
+            ok = bool(qc) and qc[-1] == {'operation': 'MEASURE'} and c['repetitions'] == self.case['reps'] and len(raw['payload']['circuits']) == 1
+            return [np_aqt_gate(op) if op.get('operation') != 'MEASURE' else (None, []) for op in qc[:-1]], [], c['number_of_qubits'], ok
+        if v == 'aqt_local':
+            leg = json.loads(raw['json_str'])
+            v1 = [dict(operation='RZ', phi=o[1], qubit=o[2][0]) if o[0] == 'Z' else dict(operation='R', theta=o[1], phi=o[2], qubit=o[3][0]) if o[0] == 'R'
+                  else dict(operation='RXX', theta=o[1], qubits=o[2]) if o[0] == 'MS' else dict(operation='MEASURE') for o in leg]
+            return [np_aqt_gate(op) if op['operation'] != 'MEASURE' else (None, []) for op in v1], [], raw['num_qubits'], raw['repetitions'] == self.case['reps']
+        native = raw['gateset'] == 'native'
+        ok = raw['gateset'] == ('native' if v == 'ionq_native' else 'qis') and isinstance(raw['qubits'], int)
+        gs = []
+        for op in raw['circuit'] or []:
+            try:
+                gs.append(np_ionq_gate(op, native))
+            except Exception:
+                gs.append((None, []))
+        ms = []
+        try:
+            text = ''.join(meta_chunks({k2: v2 for k2, v2 in raw['metadata'].items() if k2.startswith('measurement')}))
+            for rec in (text.split(chr(30)) if text else []):
+                key, ts = rec.split(chr(31))
+                ms.append((key, [int(t) for t in ts.split(',')]))
+        except Exception:
+            ok = False
+        return gs, ms, raw['qubits'], ok
+
+    def judge(self, raw, want):
+        """(decoded (id, resolver) list for the model, holds?, text) of one request body against the circuit's meaning at the time of the call."""
+        u, ms, need = want
+        try:
+            gs, got_ms, reg, ok = self.decode(raw)
+        except Exception as e:
+            return [(UNKNOWN, 0)], False, f'body cannot be read: {type(e).__name__}: {e}'
+        ids = [self.match(m, w) if m is not None else (UNKNOWN, 0) for m, w in gs] + [self.match_meas(k2, w) for k2, w in got_ms]
+        try:
+            got_u = np_prog_unitary([(m, list(w)) for m, w in gs], self.k)
+            same = np_phase_dist(got_u, u) < 1e-6
+        except Exception:
+            same = False
+        holds = bool(ok and same and sorted(got_ms) == ms and (reg is None or need <= reg <= 16))
+        return ids, holds, ''
+
+
+def run_history(cirq, mods, case):
+    """Runs the whole history on the real code.  Returns dict(events=[Gallina event], posted=[[(id, r)]], calls=[...per submission...])."""
+    h = Hist(cirq, mods, case)
+    events, posted, calls, log = [], [], [], []
+    oid, cur, cur_id = 0, None, None
+
+    def bind(c):
+        nonlocal oid
+        h.keep.append(c)
+        oid += 1
+        events.append(f'ENew {oid} {gates.nlist(h.content(c))}')
+        return oid
+
+    for si, st in enumerate(case['steps']):
+        t = st['t']
+        if t == 'new':
+            cur = h.new_circuit(st['ids'], st['m'])
+            cur_id = bind(cur)
+            log.append(f'c = Circuit{describe_ids(case, [(x, 0) for x in h.content(cur)])}')
+        elif t == 'rebind':
+            cur = cur.copy() if st['how'] == 'copy' else cur.freeze().unfreeze()
+            cur_id = bind(cur)
+            log.append('c = c.copy()')
+        elif t == 'edit':
+            term, text = h.edit(cur, st)
+            if text == 'nothing':
+                continue
+            if term is None or case['mode'] != 'flat':
+                term = ['EdSnap ' + gates.nlist(h.content(cur))]          # an opaque edit is recorded by the content it leaves behind
+            for e in term:
+                events.append(f'EEdit {cur_id} ({e})')
+            log.append('c.' + text)
+        else:
+            entry, js = st['entry'], list(st['res'])
+            hows = list(st['objs'])
+            used = sorted(h.qubits.index(x) for x in cur.all_qubits())
+            if case['vendor'] == 'aqt_local' and used != list(range(len(used))):
+                continue                 # the local AQT simulator takes circuits on qubits 0..n-1 only (it rejects the others: stream aqt_reject)
+            if entry in ('run_batch', 'svc_run_batch'):
+                n = min(len(hows), len(js))
+                hows, js = hows[:n], js[:n]
+                subs = list(zip(hows, js))
+            else:
+                hows = hows[:1]
+                if entry in ('run', 'svc_run', 'svc_create_job'):
+                    js = js[:1]
+                subs = [(hows[0], j) for j in js]
+            objs, ids = {}, {}
+            for how in set(hows):
+                if how == 'same':
+                    objs[how], ids[how] = cur, cur_id
+                else:
+                    objs[how] = cur.copy() if how == 'copy' else cur.freeze()
+                    ids[how] = bind(objs[how])
+            wants = [h.meaning(objs[how], j) for how, j in subs]
+            exp = [[(x, j if x in h.params else 0) for x in h.content(objs[how])] for how, j in subs]
+            for how, j in subs:
+                events.append(f'ESubmit {ids[how]} {j}')
+            text = f'{entry}({", ".join("c" if x == "same" else "c.copy()" if x == "copy" else "c.freeze()" for x in hows)}; a = {[HVALS[j - 1] for j in js]})'
+            log.append(text)
+            try:
+                raws = h.call(entry, [objs[x] for x in hows], js, st['form'])
+                err = None
+            except Exception as e:
+                raws, err = [], f'{type(e).__name__}: {e}'
+            for n, ((how, j), want, ex) in enumerate(zip(subs, wants, exp)):
+                if n < len(raws):
+                    got, holds, why = h.judge(raws[n], want)
+                else:
+                    got, holds, why = [(UNKNOWN, 0)], False, err or 'no request body was posted for this submission'
+                posted.append(got)
+                calls.append(dict(step=si, n=n, entry=entry, how=how, res=j, holds=holds, expected=ex, got=got, why=why, at=len(log)))
+            for extra in raws[len(subs):]:
+                posted.append([(UNKNOWN, 0)])
+                calls.append(dict(step=si, n=-1, entry=entry, how='-', res=0, holds=False, expected=None, got=None, why='a request body nobody asked for', at=len(log)))
+    return dict(events=events, posted=posted, calls=calls, params=h.params, log=log)
+
+
+def history_oracle(cirq, mods, rep):
+    return all(c['holds'] for c in run_history(cirq, mods, rep)['calls'])
+
+
+def shrink_history(cirq, mods, case):
+    steps = list(case['steps'])
+    changed = True
+    while changed:
+        changed = False
+        for i in range(len(steps) - 1, 0, -1):
+            trial = dict(case, steps=steps[:i] + steps[i + 1:])
+            try:
+                if not history_oracle(cirq, mods, trial):
+                    steps = trial['steps']
+                    changed = True
+                    break
+            except Exception:
+                pass
+    # then the circuits the history starts from: drop operations one at a time
+    changed = True
+    while changed:
+        changed = False
+        for si, st in enumerate(steps):
+            if st['t'] != 'new' or len(st['ids']) < 2:
+                continue
+            for i in range(len(st['ids'])):
+                trial_steps = steps[:si] + [dict(st, ids=st['ids'][:i] + st['ids'][i + 1:])] + steps[si + 1:]
+                try:
+                    if not history_oracle(cirq, mods, dict(case, steps=trial_steps)):
+                        steps, changed = trial_steps, True
+                        break
+                except Exception:
+                    pass
+            if changed:
+                break
+    return dict(case, steps=steps)
+
+
+def describe_ids(case, ids):
+    out = []
+    for x, j in ids:
+        if x == UNKNOWN:
+            out.append('?')
+        elif x >= MEAS0:
+            m = case['meas'][x - MEAS0]
+            out.append(f'measure@{"".join(map(str, m["w"]))}:{m["key"]}')
+        else:
+            o = case['vocab'][x]
+            out.append(f'{o["g"]}{"(a=" + str(HVALS[j - 1]) + ")" if j else "^" + str(o["e"])}@{"".join(map(str, o["w"]))}')
+    return '[' + ', '.join(out) + ']'
+
+
+def report_history(ctx, cirq, mods, rep, run=None):
+    small = shrink_history(cirq, mods, rep)
+    r = run_history(cirq, mods, small)
+    bad = next((c for c in r['calls'] if not c['holds']), None)
+    if bad is None:
+        return False
+    v = rep['vendor']
+    name = {'pasqal': 'PasqalSampler', 'aqt': 'AQTSampler', 'aqt_local': 'AQTSamplerLocalSimulator'}.get(v, 'cirq_ionq.Service')
+    earlier = [c for c in r['calls'] if c is not bad and c['expected'] is not None and c['got'] == bad['got'] and r['calls'].index(c) < r['calls'].index(bad)]
+    kind = 'stale_payload' if earlier and bad['got'] != bad['expected'] else 'payload'
+    got = describe_ids(small, bad['got']) if bad['got'] else '?'
+    exp = describe_ids(small, bad['expected']) if bad['expected'] is not None else 'nothing'
+    ename = {'svc_run': 'run', 'svc_create_job': 'create_job', 'svc_run_batch': 'run_batch', 'sampler': 'sampler().run_sweep'}.get(bad['entry'], bad['entry'])
+    what = (f'{name}.{ename} posts a request body that does not describe the circuit as it is at the time of the call'
+            f'{" (it re-posts the body of an EARLIER call on the same object)" if kind == "stale_payload" else ""}: body means {got}, circuit is {exp}'
+            f'{" (" + bad["why"] + ")" if bad["why"] else ""}. History on ONE {name} object, a = {HVALS[bad["res"] - 1] if bad["res"] else "-"}: '
+            + '; '.join(r['log'][:bad['at']]) + f'{" [submission " + str(bad["n"]) + " of the last call]" if bad["n"] > 0 else ""}')
+    _disagree(ctx, f'correspondence:history_{v}', what[:400], f'history:{v}:{kind}', what, small)
+    return True
+
+
+def history_stream(ctx, cirq, mods, dchecks, n_random):
+    rng = ctx.rng
+    for vendor in ('pasqal', 'aqt', 'aqt_local', 'ionq', 'ionq_native'):
+        stream = f'history_{vendor}'
+        fixed = [(e, how) for e in H_ENTRIES[vendor] for how in sorted(set(H_FLAT_EDITS + H_FREE_EDITS))
+                 if not (vendor.startswith('aqt') and how == 'mset')]
+        plan = [(vendor, f) for f in fixed] + [(vendor, None)] * (n_random if not vendor.endswith(('local', 'native')) else max(4, n_random // 3))
+        for vnd, f in plan:
+            rep = gen_history(rng, cirq, mods, vnd, fixed=f)
+            try:
+                r = run_history(cirq, mods, rep)
+            except Exception as e:
+                ctx.mark_broken(f'correspondence:{stream}', f'history harness failed: {type(e).__name__}: {e} on {json.dumps(rep)[:400]}')
+                continue
+            nsub = len(r['calls'])
+            edits = sum(1 for e in r['events'] if e.startswith('EEdit'))
+            ctx.count(stream, rep, nsub >= 2 and edits >= 1, sample=dict(log=r['log'], posted=[describe_ids(rep, p) for p in r['posted']][:6]))
+            ctx.cov.setdefault('history_edit_kinds', {}).setdefault(vendor, {})
+            for st in rep['steps']:
+                if st['t'] == 'edit':
+                    ctx.cov['history_edit_kinds'][vendor][st['how']] = ctx.cov['history_edit_kinds'][vendor].get(st['how'], 0) + 1
+            posted = '[' + '; '.join('[' + '; '.join(f'({x}, {j})' for x, j in p) + ']' for p in r['posted']) + ']'
+            dchecks.append((stream, f'history_ok {gates.nlist(r["params"])} [{"; ".join(r["events"])}] {posted}', rep, 'history'))
+            # the property's own reading (meaning of every body against the circuit at the time of the call) is judged on every history
+            if not all(c['holds'] for c in r['calls']):
+                rep['_reported'] = report_history(ctx, cirq, mods, rep)
+
+
+def evaluate_history(ctx, cirq, mods, hchecks, SH=60):
+    shards = []
+    for s0 in range(0, len(hchecks), SH):
+        part = hchecks[s0:s0 + SH]
+        text = PRE_H + 'Definition checks : list bool := [\n' + ';\n'.join(c[1] for c in part) + '].\nEval vm_compute in failing (fun b => b) checks.\n'
+        shards.append((f'c17h_{ctx.seed}_{s0 // SH}', text))
+    outs = coq.coq_eval_many(shards, workers=12)
+    for si, out in enumerate(outs):
+        vals = coq.parse_evals(out)
+        if not vals:
+            ctx.mark_broken('correspondence:history', f'history cases did not evaluate: {out[-400:]}')
+            continue
+        for idx in coq.parse_nat_list(vals[0]):
+            stream, expr, rep, what = hchecks[si * SH + idx]
+            if rep.pop('_reported', False):
+                continue
+            try:
+                holds = history_oracle(cirq, mods, rep)
+            except Exception as e:
+                ctx.mark_broken(f'correspondence:{stream}', f'oracle failed: {type(e).__name__}: {e}')
+                continue
+            if holds:
+                ctx.mark_broken(f'correspondence:{stream}', 'the decoded request bodies differ from the history model although every body means the circuit '
+                                f'at the time of its call: {json.dumps(rep)[:500]}')
+            else:
+                report_history(ctx, cirq, mods, rep)
+
+
 def run(ctx):
     mods = env.import_cirq(('cirq_ionq', 'cirq_aqt', 'cirq_pasqal'))
     cirq = mods['cirq']
     ctx.rule = ('IonQ: generated circuits over the serializer vocabulary (X/Y/Z powers, rx/ry/rz, XX/YY/ZZ powers, ms, CNOT/H/SWAP at '
                 'exponent = 1 mod 2, PauliStringPhasorGate; exponents at the special values, just inside/outside the 1e-8 window and generic; '
                 'global shifts) on every subset of up to 4-5 LineQubits with terminal measurements under generated keys; '
-                'non-trivial = >= 2 operations sharing a wire and >= 1 non-diagonal gate; distinct by canonical case')
+                'non-trivial = >= 2 operations sharing a wire and >= 1 non-diagonal gate; distinct by canonical case. Histories: per vendor, for every entry '
+                'point x every kind of in-place edit the fixed pattern submit / edit / submit-with-an-equal-resolver (every VERIF_SEED), plus random histories; '
+                'non-trivial = >= 2 submissions and >= 1 in-place edit')
     ctx.assumptions += ['vendor gate definitions transcribed in coq/Vendor/IonQ.v (trusted text)',
                         'adapters: JSON fields copied verbatim, angles turned into unit complex numbers by Python cos/sin',
                         'float instance tolerance 1e-9 (5e-7 when an exponent lies inside the serializer window)']
@@ -1630,8 +2378,11 @@ def run(ctx):
     aqt_results_stream(ctx, cirq, mods, 60 if q else 800)
     aqt_reject_stream(ctx, cirq, mods, 2 if q else 20)
     pasqal_stream(ctx, cirq, mods, 40 if q else 500)
+    hchecks = []
+    history_stream(ctx, cirq, mods, hchecks, 24 if q else 400)
     evaluate(ctx, cirq, mods, checks)
     evaluate_discrete(ctx, cirq, mods, dchecks)
+    evaluate_history(ctx, cirq, mods, hchecks)
 
 
 def replay(ctx, data):
@@ -1660,7 +2411,7 @@ def replay(ctx, data):
         holds, small = payload_oracle(cirq, mods, data)
         print('batch payload holds:', holds, '' if holds else small)
         return holds
-    if kind in ('ionq_metadata', 'ionq_results', 'ionq_e2e', 'ionq_reject', 'aqt_payload', 'aqt_results', 'aqt_reject', 'pasqal'):
+    if kind in ('ionq_metadata', 'ionq_results', 'ionq_e2e', 'ionq_reject', 'aqt_payload', 'aqt_results', 'aqt_reject', 'pasqal', 'history'):
         ok = replay_discrete(cirq, mods, data)
         return bool(ok)
     print('nothing to replay for', kind)
